@@ -97,6 +97,7 @@ def run(chk):
     # ---- R03.3 twins T8
     p2 = C.find_parser(w, C.S + "::update_partial_annotation")
 
+    fmt.slot_range_rule(chk, w, "R03.4", WT, 1)
     fmt.text_scan_rule(chk, w, "R03.1", parser)
     # ---- tag count taken after the last tag was recorded (both parsers)
     for pfn in (parser,):
